@@ -57,12 +57,17 @@ THEOREMS = {
             'LbzVerif.Props.C01.Roundtrip.roundtrip',
             'LbzVerif.Props.C01.Roundtrip.roundtrip_empty',
             'LbzVerif.Props.C01.Roundtrip.roundtrip_simple',
+            'LbzVerif.Props.C01.Roundtrip.roundtrip_naive',
+            'LbzVerif.Props.C01.Roundtrip.choicesOK_satisfiable',
+            'LbzVerif.Props.C01.Roundtrip.roundtrip_sched_naive',
+            'LbzVerif.Props.C01.Roundtrip.roundtrip_sched_naive_gen',
             'LbzVerif.Props.C01.Roundtrip.assemble_sched',
             'LbzVerif.Props.C01.Roundtrip.roundtrip_sched',
             'LbzVerif.Props.C01.Roundtrip.roundtrip_sched_gen'],
     'C02': ['LbzVerif.Props.C02.Inspect.inspect_compress_gen',
             'LbzVerif.Props.C02.Inspect.inspect_compress',
-            'LbzVerif.Props.C02.Inspect.inspect_compress_aligned'],
+            'LbzVerif.Props.C02.Inspect.inspect_compress_aligned',
+            'LbzVerif.Props.C02.Inspect.inspect_compress_naive'],
 }
 
 
